@@ -114,7 +114,7 @@ pub fn run(ctx: &mut Ctx) {
         }
     }
     // three-part family around the Base256 length-field edge (deterministic)
-    let fam_step = if ctx.is_thorough() { 1 } else { 3 };
+    let fam_step = 1;
     let mut i = ctx.shard * fam_step;
     while i < inputs::family_count() {
         let input = inputs::family_case(i);
